@@ -163,6 +163,7 @@ func (c *Ctx) index() {
 			}
 		}
 	}
+	c.computeAliases()
 }
 
 // addrRoot follows an address expression to the cell it denotes when that is a captured variable:
@@ -535,7 +536,7 @@ func isFieldAddr(v ssa.Value, typ, field string) (ssa.Value, bool) {
 		return nil, false
 	}
 	base, f := fieldOf(fa)
-	if f == nil || f.Name() != field {
+	if f == nil || f.Name() != aliasField(typ, field) {
 		return nil, false
 	}
 	if typeName(fa.X.Type()) != typ {
@@ -554,7 +555,7 @@ func isFieldLoad(v ssa.Value, typ, field string) (ssa.Value, bool) {
 		return isFieldAddr(x.X, typ, field)
 	case *ssa.Field:
 		base, f := fieldOf(x)
-		if f != nil && f.Name() == field && typeName(x.X.Type()) == typ {
+		if f != nil && f.Name() == aliasField(typ, field) && typeName(x.X.Type()) == typ {
 			return base, true
 		}
 	}
@@ -603,7 +604,7 @@ func isNilConst(v ssa.Value) bool {
 
 // PathQ restricts a path search.
 type PathQ struct {
-	BlockInstr func(ssa.Instruction) bool                 // paths may not pass through these instructions
+	BlockInstr func(ssa.Instruction) bool                // paths may not pass through these instructions
 	BlockEdge  func(from *ssa.BasicBlock, succ int) bool // paths may not take these edges
 }
 
